@@ -323,3 +323,35 @@ def _(self: MACOBJ()) -> bytes:
 def _(version: Range(0x40, 0x45), nonce: Union[Bytes(11), Bytes(12), Bytes(13)], mac: Union[Bytes(4), Bytes(6), Bytes(16)]):
     let(back=MAC.parse(bytes([0xAC]) + (8 + len(nonce) + len(mac)).to_bytes(2, "big") + bytes([version, 0, len(nonce), 0, len(mac)]) + nonce + mac + bytes(7)))
     ensures(back.nonce_len == len(nonce) and back.mac_len == len(mac) and back._data == nonce + mac and back._header.param == version, label="nonce-and-mac-come-back")
+
+
+# ---- CSF Install Key / NOP commands: what the ROM reads is what was asked for, and parse inverts export -------------------------------------------------
+from spsdk.image.commands import CmdInstallKey, CmdNop as CsfCmdNop, EnumInsKey  # noqa: E402
+from spsdk.image.secret import EnumAlgorithm  # noqa: E402
+from struct import unpack_from as _unp7  # noqa: E402
+
+inline("spsdk.image.commands:CmdInstallKey.__init__", "spsdk.image.commands:CmdInstallKey.flags", "spsdk.image.commands:CmdInstallKey.certificate_format",
+       "spsdk.image.commands:CmdInstallKey.hash_algorithm", "spsdk.image.commands:CmdInstallKey.source_index", "spsdk.image.commands:CmdInstallKey.target_index",
+       "spsdk.image.commands:CmdInstallKey.cmd_data_location", "spsdk.image.commands:CmdInstallKey.export", "spsdk.image.commands:CmdInstallKey.parse",
+       "spsdk.image.commands:CmdBase.__init__", "spsdk.image.header:CmdHeader.__init__", "spsdk.image.header:Header.__init__", "spsdk.image.header:CmdHeader.parse",
+       "spsdk.utils.spsdk_enum:SpsdkEnum.from_tag", "spsdk.image.commands:CmdNop.__init__", "spsdk.image.commands:CmdNop.parse")
+concrete_ok("spsdk.utils.spsdk_enum:SpsdkEnum.tags")
+
+
+@lemma("install-key-command-reaches-the-rom-as-given-and-parses-back")
+def _(flags: OneOf(EnumInsKey.CLR, EnumInsKey.ABS, EnumInsKey.CSF), fmt: OneOf(EnumCertFormat.SRK, EnumCertFormat.X509, EnumCertFormat.CMS, EnumCertFormat.BLOB),
+      alg: OneOf(EnumAlgorithm.ANY, EnumAlgorithm.SHA256), src: OneOf(0, 2, 3), tgt: Range(0, 5), location: U32):
+    # source indices 0, 2, 3 are legal for every key format (1 only for SRK, 4 and 5 only for the others: the constructor rejects the rest)
+    let(raw=CmdInstallKey(flags, fmt, alg, src, tgt, location).export())
+    ensures(len(raw) == 12 and raw[0] == 0xBE and raw[1] * 256 + raw[2] == 12 and raw[3] == flags.tag, label="tag-length-flags")
+    ensures(_unp7(">4BL", raw, 4) == (fmt.tag, alg.tag, src, tgt, location), label="protocol-algorithm-source-target-location")
+    let(back=CmdInstallKey.parse(raw))
+    ensures(back.flags == flags and back.certificate_format == fmt and back.hash_algorithm == alg and back.source_index == src and back.target_index == tgt
+            and back.cmd_data_location == location, label="parse-inverts-export")
+
+
+@lemma("csf-nop-is-a-bare-header")
+def _(param: U8):
+    let(raw=CsfCmdNop(param).export())
+    ensures(raw == bytes([0xC0, 0, 4, param]), label="tag-length-parameter")
+    ensures(CsfCmdNop.parse(raw).export() == raw, label="parse-inverts-export")
